@@ -22,17 +22,62 @@ MUX = os.path.join(vlib.REPO, "lib/src/protocol/mux")
 # ---------------------------------------------------------------------------
 # translator (T-table): decision trees and tables regenerated from the source
 
-ATOMS = [
-    (r"(?:\w+\.)*(?:streams\[\w+\]\.)?back\.is_main_phase", "CBackMainPhase"),
-    (r"(?:\w+\.)*(?:streams\[\w+\]\.)?back\.is_terminated", "CBackTerminated"),
-    (r"(?:\w+\.)*(?:streams\[\w+\]\.)?back\.is_error", "CBackError"),
-    (r"(?:\w+\.)*(?:streams\[\w+\]\.)?back\.is_completed", "CBackCompleted"),
-    (r"(?:\w+\.)*(?:streams\[\w+\]\.)?back\.consumed", "CBackConsumed"),
-    (r"(?:\w+\.)*(?:streams\[\w+\]\.)?front\.consumed", "CFrontConsumed"),
-    (r"(?:\w+\.)*context\.keep_alive_backend", "CKeepAliveBackend"),
-    (r"front_is_h2", "CFrontIsH2"),
-    (r"interim", "CBackInterim"),
-]
+# context of the function being read: its let-bindings (expanded inside conditions), the file it lives in
+# (one-level helper calls are followed), the names of the two flags of Mux::timeout, named constants
+CTX = dict(binds={}, src="", close_flag="should_close", write_flag="should_write", consts={})
+
+
+def set_ctx(body, src):
+    CTX["binds"] = R.let_bindings(body)
+    CTX["src"] = src
+    CTX["consts"] = dict(re.findall(r"\bconst\s+(\w+)\s*:\s*\w+\s*=\s*(\d+)\s*;", src))
+
+
+def is_interim_expr(t0):
+    """`matches!(<..>.status_line, ..Response { code, .. } if (100..200).contains(&code) [&& code != 101])`"""
+    return "status_line" in t0 and re.search(r"\(100\.\.200\)\.contains\(&?\w+\)|\(100\.\.=199\)\.contains\(&?\w+\)|\w+/100==1", t0) is not None
+
+
+def classify(leaf, depth=0):
+    """leaf of a condition (let-bindings already expanded) -> atom name | None"""
+    t0 = "".join(leaf.split())
+    while t0.startswith("(") and R.match_brace(t0, 0, "(", ")") == len(t0) - 1:
+        t0 = t0[1:-1]
+    if is_interim_expr(t0):
+        return "CBackInterim"
+    if "self.frontend" in t0 and "Connection::H2" in t0 and (t0.startswith("matches!(") or re.search(r"Connection::H2\(_\)=>true", t0)):
+        return "CFrontIsH2"
+    for rx, name in ((r"\bback\)*\.is_main_phase\(\)$", "CBackMainPhase"), (r"\bback\)*\.is_terminated\(\)$", "CBackTerminated"),
+                     (r"\bback\)*\.is_error\(\)$", "CBackError"), (r"\bback\)*\.is_completed\(\)$", "CBackCompleted"),
+                     (r"\bback\)*\.consumed$", "CBackConsumed"), (r"\bfront\)*\.consumed$", "CFrontConsumed"),
+                     (r"\bcontext\)*\.keep_alive_backend$", "CKeepAliveBackend")):
+        if re.search(rx, t0) and not re.search(r"&&|\|\|", t0):
+            return name
+    # a one-level private helper: `name(..)` / `x.name(..)` whose body is a single boolean expression
+    m = re.fullmatch(r"(?:[\w.\[\]&()]*?[.:])?(\w+)\((.*)\)", t0)
+    if m and depth == 0 and CTX["src"]:
+        try:
+            hb, _ = R.fn_body(CTX["src"], m.group(1))
+        except R.Unrecognised:
+            return None
+        binds = R.let_bindings(hb)
+        tail = re.sub(r"\blet\b[^;]*;", " ", hb).strip()
+        if tail and ";" not in tail:
+            try:
+                e = R.parse_bool(tail, lambda x: classify(x, 1), binds)
+            except R.Unrecognised:
+                return None
+            if e[0] == "atom":
+                return e[1]
+    return None
+
+
+def cond_tree(text):
+    e = R.parse_bool(text, classify, CTX["binds"])
+    if "const" in repr(e):
+        raise R.Unrecognised("constant inside condition %r" % text)
+    return e
+
 
 STATES = ["Idle", "Link", "Linked", "Unlinked", "Recycle"]
 ACTIONS = ["ForwardTerminated", "CloseDelimited", "ForwardUnterminated", "SendDefault", "Reconnect"]
@@ -53,8 +98,8 @@ def effects(text, what):
     pats = [
         (r"\bset_default_answer(?:_with_retry_after)?\s*\(\s*[\w.&\s]+,\s*[&\w.\s]+,\s*(\w+)\s*,", "ans"),
         (r"\bforcefully_terminate_answer\s*\(", "EForce"),
-        (r"\bshould_close\s*=\s*false\b", "EWait"),
-        (r"\bshould_write\s*=\s*true\b", "EWrite"),
+        (r"\b%s\s*=\s*false\b" % re.escape(CTX["close_flag"]), "EWait"),
+        (r"\b%s\s*=\s*true\b" % re.escape(CTX["write_flag"]), "EWrite"),
         (r"\bunlink_stream\s*\(", "EUnlink"),
         (r"\bstate\s*=\s*StreamState::(\w+)", "state"),
         (r"\barm_writable\s*\(", "EArm"),
@@ -68,10 +113,11 @@ def effects(text, what):
         for m in re.finditer(rx, text):
             if tag == "ans":
                 a = m.group(1)
+                a = CTX["consts"].get(a, a)        # a named constant of the same file stands for its value
                 if a.isdigit():
                     term = "EAns (Lit %s)" % a
-                elif a in ("status", "code"):
-                    term = "EAns Var"
+                elif re.fullmatch(r"[a-z_]\w*", a):
+                    term = "EAns Var"              # a binding: the status carried by the decision / the sub-match
                 else:
                     raise R.Unrecognised("%s: default answer with unrecognised status argument %r" % (what, a))
             elif tag == "state":
@@ -100,7 +146,7 @@ def effects(text, what):
 def tree_coq(t, what):
     if t[0] == "leaf":
         return "Leaf [%s]" % "; ".join(effects(t[1], what))
-    return "Ite (%s) (%s) (%s)" % (cond_coq(R.parse_cond(t[1], ATOMS)), tree_coq(t[2], what), tree_coq(t[3], what))
+    return "Ite (%s) (%s) (%s)" % (cond_coq(cond_tree(t[1])), tree_coq(t[2], what), tree_coq(t[3], what))
 
 
 # concrete causes of a failed Router::connect, as paths through the error enums
@@ -186,206 +232,494 @@ def pat_matches(segs, cause):
     return True   # pattern shorter than the cause: struct/unit at that depth
 
 
-def translate_tables():
-    """-> (Gen.v text, failures)"""
-    fails = []
-    lines = ["(* GENERATED by props/c02.py:translate from /repo — do not edit. *)",
-             "From Coq Require Import List NArith.", "From SV Require Import C02.Model.", "Import ListNotations.", "Open Scope N_scope.", ""]
-    shared = R.strip(open(os.path.join(MUX, "shared.rs")).read())
-    body, _ = R.fn_body(shared, "end_stream_decision")
-    lines.append("Definition gen_esd : dtree := %s." % tree_coq(R.parse_block(body), "shared.rs end_stream_decision"))
+FACTS_FILE = os.path.join(vlib.ROOT, "props", "c02_facts.json")
 
+
+def read_facts():
+    """-> ({fact name: Coq definition text}, {fact name: why it could not be read}, hard failures).
+    Every fact is read on its own: a construct that is no longer RECOGNISED only loses that fact
+    (reported `unreadable:`, the definition then comes from the committed snapshot props/c02_facts.json);
+    a construct that is recognised and says something else yields a different definition (the proofs and the
+    correspondence run decide) or a hard failure."""
+    facts, unread, fails = {}, {}, []
+
+    def fact(name, fn, soft=False):
+        """soft: the fact is observed exhaustively by the in-process correspondence run (see TRANSLATE_FALLBACK and
+        harmless/ tests); every other fact that cannot be read is a HARD failure (the snapshot only keeps Gen.v
+        well-formed so that the rest of the run still reports)"""
+        try:
+            facts[name] = fn()
+        except (R.Unrecognised, ValueError, IndexError, AttributeError, KeyError) as ex:
+            if soft:
+                unread[name] = "%s" % (ex,)
+            else:
+                fails.append("%s: the source could not be read as the model's fact: %s" % (name, ex))
+
+    shared = R.strip(open(os.path.join(MUX, "shared.rs")).read())
     mod = R.strip(open(os.path.join(MUX, "mod.rs")).read())
+    h1 = R.strip(open(os.path.join(MUX, "h1.rs")).read())
+    h2 = R.strip(open(os.path.join(MUX, "h2.rs")).read())
+    ans = R.strip(open(os.path.join(MUX, "answers.rs")).read())
+    cn = R.strip(open(os.path.join(MUX, "connection.rs")).read())
+
+    def f_esd():
+        body, _ = R.fn_body(shared, "end_stream_decision")
+        set_ctx(body, shared)
+        return "Definition gen_esd : dtree := %s." % tree_coq(R.parse_block(body), "shared.rs end_stream_decision")
+    fact("gen_esd", f_esd, soft=True)
+
     # (ii) BackendConnectionError -> status
-    m = re.search(r"match\s+self\s*\.\s*router\s*\.\s*connect\s*\(", mod)
-    if not m:
-        raise R.Unrecognised("mod.rs: `match self.router.connect(` not found")
-    e = R.match_brace(mod, m.end() - 1, "(", ")")
-    outer = mod[mod.index("{", e):]
-    outer = outer[1:R.match_brace(outer, 0)]
-    arms = R.match_arms(outer)
-    err_arm = [b for p, b in arms if p.startswith("Err(")]
-    ok_arm = [b for p, b in arms if p.startswith("Ok(")]
-    if len(err_arm) != 1 or len(ok_arm) != 1 or len(arms) != 2:
-        raise R.Unrecognised("mod.rs: connect() result match is not {Ok, Err}")
-    if effects(ok_arm[0], "connect Ok arm"):
-        fails.append("mod.rs: the Ok arm of router.connect now has answer effects: %s" % effects(ok_arm[0], "ok"))
-    mm = re.search(r"\bmatch\s+error\s*\{", err_arm[0])
-    if not mm:
-        raise R.Unrecognised("mod.rs: `match error {` not found in the Err arm")
-    inner = err_arm[0][mm.end() - 1:]
-    inner = inner[1:R.match_brace(inner, 0)]
-    earms = []
-    for pat, b in R.match_arms(inner):
-        alts = [pat_path(a) for a in re.split(r"\s\|\s", pat)]
-        earms.append((alts, b, pat))
-    rows = []
-    fallback = None
-    for cname, path in CAUSES:
-        hit = None
-        for alts, b, pat in earms:
-            if any(pat_matches(a, path) for a in alts):
-                hit = (b, pat)
-                break
-        if hit is None:
-            fails.append("mod.rs: no connect-error arm matches %s" % "::".join(path))
-            continue
-        b, pat = hit
-        sub = re.search(r"let\s+code\s*=\s*match\s+err\s*\{", b)
-        red = re.search(r"let\s+code\s*=\s*stream\s*\.\s*context\s*\.\s*redirect_status\s*\.\s*unwrap_or\s*\(\s*(\d+)\s*\)", b)
-        if sub:
-            sb = b[sub.end() - 1:]
-            sb_in = sb[1:R.match_brace(sb, 0)]
-            code = None
-            for sp, sv in R.match_arms(sb_in):
-                if any(pat_matches(pat_path(a), path[2:]) for a in re.split(r"\s\|\s", sp)):
-                    code = sv.strip()
-                    break
-            if code is None or not code.isdigit():
-                fails.append("mod.rs: RetrieveFrontend sub-match has no literal status for %s" % path[-1])
-                continue
-            rest = b[:sub.start()] + b[sub.end() - 1 + R.match_brace(sb, 0) + 1:]
-            effs = [x.replace("EAns Var", "EAns (Lit %s)" % code) for x in effects(rest, "connect arm " + pat)]
-        elif red:
-            fallback = red.group(1)
-            effs = [x.replace("EAns Var", "EAns Redirect") for x in effects(b[:red.start()] + b[red.end():], "connect arm " + pat)]
+    def f_connect():
+        m = re.search(r"match\s+self\s*\.\s*router\s*\.\s*connect\s*\(", mod)
+        if m:
+            e = R.match_brace(mod, m.end() - 1, "(", ")")
+            outer = mod[mod.index("{", e):]
         else:
-            effs = effects(b, "connect arm " + pat)
-        rows.append("  | %s => [%s]" % (cname, "; ".join(effs)))
-    lines.append("Definition gen_connect (k : cause) : list eff :=\n  match k with\n%s\n  end." % "\n".join(rows))
-    lines.append("Definition gen_redirect_fallback : N := %s." % (fallback or "0"))
-    if fallback is None:
-        fails.append("mod.rs: HttpsRedirect arm no longer reads redirect_status.unwrap_or(<n>)")
+            # `let r = self.router.connect(..); match r {`
+            m = re.search(r"let\s+(\w+)\s*=\s*self\s*\.\s*router\s*\.\s*connect\s*\(", mod)
+            if not m:
+                raise R.Unrecognised("mod.rs: the call of self.router.connect( was not found")
+            m2 = re.compile(r"match\s+%s\s*\{" % m.group(1)).search(mod, m.end())
+            if not m2:
+                raise R.Unrecognised("mod.rs: no match on the result of router.connect")
+            outer = mod[m2.end() - 1:]
+        outer = outer[1:R.match_brace(outer, 0)]
+        set_ctx(outer, mod)
+        arms = R.match_arms(outer)
+        err_arm = [(p_, b) for p_, b in arms if p_.startswith("Err(")]
+        ok_arm = [b for p_, b in arms if p_.startswith("Ok(")]
+        if len(err_arm) != 1 or len(ok_arm) != 1 or len(arms) != 2:
+            raise R.Unrecognised("mod.rs: connect() result match is not {Ok, Err}")
+        if effects(ok_arm[0], "connect Ok arm"):
+            fails.append("mod.rs: the Ok arm of router.connect now has answer effects: %s" % effects(ok_arm[0], "ok"))
+        ename = re.fullmatch(r"Err\(\s*(?:ref\s+)?(\w+)\s*\)", err_arm[0][0])
+        if not ename:
+            raise R.Unrecognised("mod.rs: Err arm pattern %r" % err_arm[0][0])
+        mm = re.search(r"\bmatch\s+&?%s\s*\{" % ename.group(1), err_arm[0][1])
+        if not mm:
+            raise R.Unrecognised("mod.rs: no match on the connect error in the Err arm")
+        inner = err_arm[0][1][mm.end() - 1:]
+        inner = inner[1:R.match_brace(inner, 0)]
+        earms = []
+        for pat, b in R.match_arms(inner):
+            alts = [pat_path(a) for a in re.split(r"\s\|\s", pat)]
+            earms.append((alts, b, pat))
+        rows, fallback = [], None
+        for cname, path in CAUSES:
+            hit = None
+            for alts, b, pat in earms:
+                if any(pat_matches(a, path) for a in alts):
+                    hit = (b, pat)
+                    break
+            if hit is None:
+                fails.append("mod.rs: no connect-error arm matches %s" % "::".join(path))
+                continue
+            b, pat = hit
+            sub = re.search(r"let\s+(\w+)\s*=\s*match\s+&?\w+\s*\{", b)
+            red = re.search(r"let\s+(\w+)\s*=\s*stream\s*\.\s*context\s*\.\s*redirect_status\s*\.\s*unwrap_or\s*\(\s*(\w+)\s*\)", b)
+            if sub:
+                sb = b[sub.end() - 1:]
+                sb_in = sb[1:R.match_brace(sb, 0)]
+                code = None
+                for sp, sv in R.match_arms(sb_in):
+                    if any(pat_matches(pat_path(a), path[2:]) for a in re.split(r"\s\|\s", sp)):
+                        code = CTX["consts"].get(sv.strip().rstrip(","), sv.strip().rstrip(","))
+                        break
+                if code is None or not code.isdigit():
+                    fails.append("mod.rs: RetrieveFrontend sub-match has no literal status for %s" % path[-1])
+                    continue
+                rest = b[:sub.start()] + b[sub.end() - 1 + R.match_brace(sb, 0) + 1:]
+                effs = [x.replace("EAns Var", "EAns (Lit %s)" % code) for x in effects(rest, "connect arm " + pat)]
+            elif red:
+                fallback = CTX["consts"].get(red.group(2), red.group(2))
+                effs = [x.replace("EAns Var", "EAns Redirect") for x in effects(b[:red.start()] + b[red.end():], "connect arm " + pat)]
+            else:
+                effs = effects(b, "connect arm " + pat)
+            rows.append("  | %s => [%s]" % (cname, "; ".join(effs)))
+        if fallback is None or not fallback.isdigit():
+            fails.append("mod.rs: HttpsRedirect arm no longer reads redirect_status.unwrap_or(<n>)")
+        return ("Definition gen_connect (k : cause) : list eff :=\n  match k with\n%s\n  end.\n" % "\n".join(rows)
+                + "Definition gen_redirect_fallback : N := %s." % (fallback if fallback and fallback.isdigit() else "0"))
+    fact("gen_connect", f_connect)
     # the variant universe the cause list was written against
     for en, (f, want) in ENUMS.items():
-        got = enum_variants(R.strip(open(os.path.join(vlib.REPO, f)).read()), en)
+        try:
+            got = enum_variants(R.strip(open(os.path.join(vlib.REPO, f)).read()), en)
+        except R.Unrecognised as ex:
+            fails.append("%s: enum %s could not be read: %s" % (f, en, ex))
+            continue
         if got != want:
             fails.append("%s: enum %s variants changed: %s (cause list written for %s)" % (f, en, got, want))
 
     # (iii) timeouts
-    tbody, _ = R.fn_body(mod, "timeout", mod.index("fn update_readiness(&mut self"))
-    fm = re.search(r"match\s+self\s*\.\s*context\s*\.\s*streams\s*\[\s*stream_id\s*\]\s*\.\s*state\s*\{", tbody)
-    if not fm:
-        raise R.Unrecognised("mod.rs timeout: per-stream state match not found")
-    fb = tbody[fm.end() - 1:]
-    fb = fb[1:R.match_brace(fb, 0)]
-    seen = {}
-    for pat, b in R.match_arms(fb):
-        mm = re.fullmatch(r"StreamState::(\w+)(?:\(_\))?", pat)
-        if not mm or mm.group(1) not in STATES:
-            raise R.Unrecognised("mod.rs timeout: arm pattern %r" % pat)
-        seen[mm.group(1)] = tree_coq(R.parse_block(b), "frontend timeout arm " + mm.group(1))
-    if sorted(seen) != sorted(STATES):
-        fails.append("mod.rs timeout: frontend-timer arms are %s" % sorted(seen))
-    lines.append("Definition gen_front_timeout (s : sstate) : dtree :=\n  match s with\n%s\n  end." % "\n".join(
-        "  | S%s => %s" % (s, seen.get(s, "Leaf []")) for s in STATES))
-    bm = re.search(r"for\s+stream_id\s+in\s+linked_ids\s*\{", tbody)
-    if not bm:
+    def timeout_body():
+        tbody, _ = R.fn_body(mod, "timeout", mod.index("fn update_readiness(&mut self"))
+        set_ctx(tbody, mod)
+        head = tbody[:tbody.index("if ")]
+        cf = re.findall(r"let\s+mut\s+(\w+)\s*=\s*true\s*;", head)
+        wf = re.findall(r"let\s+mut\s+(\w+)\s*=\s*false\s*;", head)
+        if len(cf) != 1 or len(wf) != 1:
+            raise R.Unrecognised("mod.rs timeout: the two flags (`let mut <close> = true; let mut <write> = false;`) were not found")
+        CTX["close_flag"], CTX["write_flag"] = cf[0], wf[0]
+        return tbody
+
+    def f_ft():
+        tbody = timeout_body()
+        fm = re.search(r"match\s+self\s*\.\s*context\s*\.\s*streams\s*\[\s*\w+\s*\]\s*\.\s*state\s*\{", tbody)
+        if not fm:
+            raise R.Unrecognised("mod.rs timeout: per-stream state match not found")
+        fb = tbody[fm.end() - 1:]
+        fb = fb[1:R.match_brace(fb, 0)]
+        seen = {}
+        for pat, b in R.match_arms(fb):
+            mm = re.fullmatch(r"StreamState::(\w+)(?:\(_\w*\))?", pat)
+            if not mm or mm.group(1) not in STATES:
+                raise R.Unrecognised("mod.rs timeout: arm pattern %r" % pat)
+            seen[mm.group(1)] = tree_coq(R.parse_block(b), "frontend timeout arm " + mm.group(1))
+        if sorted(seen) != sorted(STATES):
+            fails.append("mod.rs timeout: frontend-timer arms are %s" % sorted(seen))
+        return "Definition gen_front_timeout (s : sstate) : dtree :=\n  match s with\n%s\n  end." % "\n".join(
+            "  | S%s => %s" % (s_, seen.get(s_, "Leaf []")) for s_ in STATES)
+    fact("gen_front_timeout", f_ft)
+
+    def backend_loop(tbody):
+        # the loop over the streams linked to the backend whose timer fired: the `for` whose body answers 504
+        for bm in re.finditer(r"for\s+(\w+)\s+in\s+[\w.&()]+\s*\{", tbody):
+            bb = tbody[bm.end() - 1:]
+            bb = bb[1:R.match_brace(bb, 0)]
+            if re.search(r"set_default_answer\s*\(", bb) and re.search(r"\.\s*end_stream\s*\(\s*%s\b" % bm.group(1), bb) and not re.search(r"\bmatch\b", bb.split("set_default_answer")[0]):
+                return bb
         raise R.Unrecognised("mod.rs timeout: backend-timer loop not found")
-    bb = tbody[bm.end() - 1:]
-    bb = bb[1:R.match_brace(bb, 0)]
-    # the trailing `backend.end_stream(..)` of the loop body is common to all leaves
-    if not re.search(r"backend\s*\.\s*end_stream\s*\(\s*stream_id", bb):
-        fails.append("mod.rs timeout: backend-timer loop no longer ends the stream on the backend connection")
-    lines.append("Definition gen_back_timeout : dtree := %s." % tree_coq(R.parse_block(bb), "backend timeout"))
+
+    def f_bt():
+        tbody = timeout_body()
+        bb = backend_loop(tbody)
+        return "Definition gen_back_timeout : dtree := %s." % tree_coq(R.parse_block(bb), "backend timeout")
+    fact("gen_back_timeout", f_bt)
+
     # re-arming of the timers on the paths that keep the session
-    def has(rx, text):
-        return "true" if re.search(rx, text, re.S) else "false"
-    sw, _, swe = R.block_after(tbody, r"\bif\s+should_write\s*")
-    rest = tbody[swe:]
-    sc, _, sce = R.block_after(rest, r"\bif\s+should_close\s*")
-    els = rest[sce + 1:]
-    lines.append("Definition gen_rearm_after_write : bool := %s." % has(r"result\s*==\s*StateResult::Continue\s*\{\s*self\.frontend\.timeout_container\(\)\.set\(self\.frontend_token\)", sw))
-    lines.append("Definition gen_rearm_delay_close : bool := %s." % has(r"delay_close_for_frontend_flush\(\"\"\)\s*\{.*?timeout_container\(\)\.set\(self\.frontend_token\).*?return StateResult::Continue", sc))
-    lines.append("Definition gen_rearm_wait : bool := %s." % has(r"^\s*else\s*\{\s*self\.frontend\.timeout_container\(\)\.set\(self\.frontend_token\);\s*StateResult::Continue", els))
-    lines.append("Definition gen_rearm_backend_wait : bool := %s." % has(r"if\s+!should_close\s*\{\s*backend\.timeout_container\(\)\.set\(token\)", tbody))
-    lines.append("Definition gen_write_rounds : nat := %s." % (re.search(r"for\s+_\s+in\s+0\.\.(\d+)", sw) or [0, "0"])[1])
+    def f_rearm():
+        tbody = timeout_body()
+        cf, wf = CTX["close_flag"], CTX["write_flag"]
+
+        def has(rx, text):
+            return "true" if re.search(rx, text, re.S) else "false"
+        sw, _, swe = R.block_after(tbody, r"\bif\s+%s\s*(?=\{)" % wf)
+        rest = tbody[swe:]
+        sc, _, sce = R.block_after(rest, r"\bif\s+%s\s*(?=\{)" % cf)
+        els = rest[sce + 1:]
+        arm = r"self\.frontend\.timeout_container\(\)\.set\(self\.frontend_token\)"
+        out = ["Definition gen_rearm_after_write : bool := %s." % has(r"(\w+)\s*==\s*StateResult::Continue\s*\{\s*" + arm, sw),
+               "Definition gen_rearm_delay_close : bool := %s." % has(r"delay_close_for_frontend_flush\(\"\"\)\s*\{.*?" + arm + r".*?return StateResult::Continue", sc),
+               "Definition gen_rearm_wait : bool := %s." % has(r"^\s*else\s*\{\s*" + arm + r";\s*StateResult::Continue", els),
+               "Definition gen_rearm_backend_wait : bool := %s." % has(r"if\s+!%s\s*\{\s*\w+\.timeout_container\(\)\.set\(token\)" % cf, tbody),
+               "Definition gen_write_rounds : nat := %s." % (re.search(r"for\s+_\s+in\s+0\.\.(\d+)", sw) or [0, "0"])[1]]
+        return "\n".join(out)
+    fact("gen_rearm", f_rearm)
 
     # end_stream server arms of both protocols
-    for proto, fname in (("h1", "h1.rs"), ("h2", "h2.rs")):
-        src = R.strip(open(os.path.join(MUX, fname)).read())
-        body, _ = R.fn_body(src, "end_stream")
-        mm = re.search(r"match\s+end_stream_decision\s*\(\s*stream\s*\)\s*\{", body)
-        if not mm:
-            raise R.Unrecognised("%s: `match end_stream_decision(stream)` not found" % fname)
-        ab = body[mm.end() - 1:]
-        ab = ab[1:R.match_brace(ab, 0)]
-        rows = {}
-        for pat, b in R.match_arms(ab):
-            m2 = re.fullmatch(r"EndStreamAction::(\w+)(?:\((\w+)\))?", pat)
-            if not m2 or m2.group(1) not in ACTIONS:
-                raise R.Unrecognised("%s end_stream arm %r" % (fname, pat))
-            rows[m2.group(1)] = tree_coq(R.parse_block(b), "%s end_stream arm %s" % (fname, pat))
-        if sorted(rows) != sorted(ACTIONS):
-            fails.append("%s: end_stream arms are %s" % (fname, sorted(rows)))
-        lines.append("Definition gen_end_arm_%s (a : atag) : dtree :=\n  match a with\n%s\n  end." % (proto, "\n".join(
-            "  | T%s => %s" % (a, rows.get(a, "Leaf []")) for a in ACTIONS)))
+    for proto, fname, src in (("h1", "h1.rs", h1), ("h2", "h2.rs", h2)):
+        def f_arm(proto=proto, fname=fname, src=src):
+            body, _ = R.fn_body(src, "end_stream")
+            set_ctx(body, src)
+            mm = re.search(r"match\s+end_stream_decision\s*\(\s*&?\w+\s*\)\s*\{", body)
+            if not mm:
+                lm = re.search(r"let\s+(\w+)\s*=\s*end_stream_decision\s*\(\s*&?\w+\s*\)\s*;", body)
+                mm = lm and re.compile(r"match\s+%s\s*\{" % lm.group(1)).search(body, lm.end())
+            if not mm:
+                raise R.Unrecognised("%s: no match on end_stream_decision(stream)" % fname)
+            ab = body[mm.end() - 1:]
+            ab = ab[1:R.match_brace(ab, 0)]
+            rows = {}
+            for pat, b in R.match_arms(ab):
+                m2 = re.fullmatch(r"EndStreamAction::(\w+)(?:\((\w+)\))?", pat)
+                if not m2 or m2.group(1) not in ACTIONS:
+                    raise R.Unrecognised("%s end_stream arm %r" % (fname, pat))
+                rows[m2.group(1)] = tree_coq(R.parse_block(b), "%s end_stream arm %s" % (fname, pat))
+            if sorted(rows) != sorted(ACTIONS):
+                fails.append("%s: end_stream arms are %s" % (fname, sorted(rows)))
+            return "Definition gen_end_arm_%s (a : atag) : dtree :=\n  match a with\n%s\n  end." % (proto, "\n".join(
+                "  | T%s => %s" % (a, rows.get(a, "Leaf []")) for a in ACTIONS))
+        fact("gen_end_arm_" + proto, f_arm)
 
     # answers.rs: what the two helpers do to the stream
-    ans = R.strip(open(os.path.join(MUX, "answers.rs")).read())
-    b1, _ = R.fn_body(ans, "set_default_answer_with_retry_after")
-    b2, _ = R.fn_body(ans, "forcefully_terminate_answer")
-    b0, _ = R.fn_body(ans, "set_default_answer")
-    if not re.search(r"set_default_answer_with_retry_after\s*\(\s*stream\s*,\s*readiness\s*,\s*code\s*,\s*answers\s*,\s*None\s*\)", b0):
-        fails.append("answers.rs: set_default_answer no longer forwards to set_default_answer_with_retry_after(.., None)")
-    lines.append("Definition gen_default_answer_effs : list eff := [%s]." % "; ".join(e for e in effects(re.sub(r"\bmatch\b", "switch", b1), "set_default_answer") if not e.startswith("EAns")))
-    lines.append("Definition gen_force_effs : list eff := [%s]." % "; ".join(effects(b2, "forcefully_terminate_answer")))
-    for rx, what in ((r"kawa\.clear\(\);", "clears the response kawa first"), (r"ensure_default_answer_end_stream\(kawa\)", "ensures an end_stream flag"),
-                     (r"context\.status\s*=\s*Some\(resolved_status\)", "records the resolved status")):
-        if not re.search(rx, b1):
-            fails.append("answers.rs: set_default_answer no longer %s" % what)
-    dm = re.search(r"\bmatch\s+code\s*\{", R.fn_body(ans, "default_answer_for_code")[0])
-    db = R.fn_body(ans, "default_answer_for_code")[0][dm.end() - 1:]
-    codes = [p_ for p_, _ in R.match_arms(db[1:R.match_brace(db, 0)]) if p_.isdigit()]
-    lines.append("Definition gen_known_codes : list N := [%s]." % "; ".join(codes))
+    def f_answers():
+        b1, _ = R.fn_body(ans, "set_default_answer_with_retry_after")
+        b2, _ = R.fn_body(ans, "forcefully_terminate_answer")
+        b0, _ = R.fn_body(ans, "set_default_answer")
+        set_ctx(b1, ans)
+        if not re.search(r"set_default_answer_with_retry_after\s*\(\s*\w+\s*,\s*\w+\s*,\s*\w+\s*,\s*\w+\s*,\s*None\s*\)", b0):
+            fails.append("answers.rs: set_default_answer no longer forwards to set_default_answer_with_retry_after(.., None)")
+        # shape facts the in-process `answer` op observes (buffer content, end flag, recorded status)
+        ends = re.search(r"end_stream\s*:\s*true|\.end_stream\s*=\s*true", b1) is not None
+        for cm in re.finditer(r"\b(\w+)\s*\(\s*(?:&mut\s+)?\w+\s*\)\s*;", b1):
+            try:
+                hb, _ = R.fn_body(ans, cm.group(1))
+            except R.Unrecognised:
+                continue
+            if re.search(r"end_stream", hb):
+                ends = True
+        for ok, what in ((re.search(r"\b\w+\.clear\(\)\s*;", b1), "clears the response kawa first"), (ends, "ensures an end_stream flag"),
+                         (re.search(r"context\.status\s*=\s*Some\(\w+\)", b1), "records the resolved status")):
+            if not ok:
+                fails.append("answers.rs: set_default_answer no longer %s" % what)
+        return ("Definition gen_default_answer_effs : list eff := [%s].\n" % "; ".join(e for e in effects(re.sub(r"\bmatch\b", "switch", b1), "set_default_answer") if not e.startswith("EAns"))
+                + "Definition gen_force_effs : list eff := [%s]." % "; ".join(effects(b2, "forcefully_terminate_answer")))
+    fact("gen_answer_effs", f_answers)
+
+    def f_codes():
+        db0 = R.fn_body(ans, "default_answer_for_code")[0]
+        dm = re.search(r"\bmatch\s+\w+\s*\{", db0)
+        db = db0[dm.end() - 1:]
+        consts = dict(re.findall(r"\bconst\s+(\w+)\s*:\s*\w+\s*=\s*(\d+)\s*;", ans))
+        codes = []
+        for p_, _ in R.match_arms(db[1:R.match_brace(db, 0)]):
+            for alt in re.split(r"\s*\|\s*", p_):
+                alt = consts.get(alt.strip(), alt.strip())
+                if alt.isdigit():
+                    codes.append(alt)
+        return "Definition gen_known_codes : list N := [%s]." % "; ".join(codes)
+    fact("gen_known_codes", f_codes)
+
     # (iv) retry budget
-    srv = R.strip(open(os.path.join(vlib.REPO, "lib/src/server.rs")).read())
-    m = re.search(r"pub const CONN_RETRIES\s*:\s*u8\s*=\s*(\d+)\s*;", srv)
-    if not m:
-        raise R.Unrecognised("server.rs: CONN_RETRIES")
-    lines.append("Definition gen_conn_retries : nat := %s." % m.group(1))
-    rt = R.strip(open(os.path.join(MUX, "router.rs")).read())
-    cb, _ = R.fn_body(rt, "connect")
-    g = re.search(r"if\s+stream\.attempts\s*(>=|>|==)\s*CONN_RETRIES\s*\{(.*?)\}\s*stream\.attempts\s*\+=\s*1\s*;", cb, re.S)
-    lines.append("Definition gen_retry_guard_ge : bool := %s." % ("true" if g and g.group(1) == ">=" and "MaxConnectionRetries" in g.group(2) else "false"))
-    if not g:
-        fails.append("router.rs: connect no longer has `if stream.attempts >= CONN_RETRIES {..MaxConnectionRetries..} stream.attempts += 1`")
-    gl = re.search(r"if\s+!matches!\(stream\.state,\s*StreamState::Link\)\s*\{.*?return Err\(BackendConnectionError::(\w+)\)", cb, re.S)
-    if not gl:
-        fails.append("router.rs: connect no longer rejects a stream that is not in Link state")
-    h1 = R.strip(open(os.path.join(MUX, "h1.rs")).read())
-    wb, _ = R.fn_body(h1, "writable")
-    lines.append("Definition gen_h1_close_after_close : bool := %s." % (
-        "true" if (re.search(r"let\s+ended_by_close\s*=\s*!stream\.context\.keep_alive_backend\s*&&\s*stream\.back\.expects\s*>\s*0\s*&&\s*stream\.context\.method\s*!=\s*Some\([\w:]*Method::Head\)\s*;", wb)
-                   and re.search(r"if\s+stream\.context\.keep_alive_frontend\s*&&\s*!ended_by_close\b", wb)) else "false"))
-    lines.append("Definition gen_h1_close_if_request_open : bool := %s." % (
-        "true" if (re.search(r"let\s+request_unfinished\s*=\s*!stream\.front\.is_terminated\(\)\s*;", wb)
-                   and re.search(r"if\s+stream\.context\.keep_alive_frontend\s*&&\s*!ended_by_close\s*&&\s*!request_unfinished\s*\{", wb)) else "false"))
-    lines.append("Definition gen_h1_head_gate : bool := %s." % (
-        "true" if (re.search(r"let\s+head_incomplete\s*=\s*matches!\(self\.position,\s*Position::Server\)\s*&&\s*!kawa\.is_main_phase\(\)\s*&&\s*!kawa\.is_error\(\)\s*;", wb)
-                   and re.search(r"if\s+!head_incomplete\s*\{(?:(?!\n        \}).)*kawa\.prepare\(&mut kawa::h1::BlockConverter\)", wb, re.S)
-                   and len(re.findall(r"kawa\.prepare\(", wb)) == 1) else "false"))
-    h1es, _ = R.fn_body(h1, "end_stream")
-    lines.append("Definition gen_park_requires_terminated : bool := %s." % (
-        "true" if re.search(r"if\s+stream_context\.keep_alive_backend\s*&&\s*stream\.back\.is_terminated\(\)\s*&&\s*!interim\s*\{\s*\*status\s*=\s*BackendStatus::KeepAlive\s*;\s*\}\s*else\s*\{\s*self\.force_disconnect\(\)", h1es) else "false"))
-    # a lost backend is not closed over bytes still unparsed behind an interim (b0e7d42): the dead-backend
-    # check of Mux::ready, the predicate it consults, and the read path that parses the leftover on Closed
-    mx = R.strip(open(os.path.join(MUX, "mod.rs")).read())
-    cn = R.strip(open(os.path.join(MUX, "connection.rs")).read())
-    rb, _ = R.fn_body(h1, "readable")
-    try:
-        ub, _ = R.fn_body(cn, "has_unparsed_behind_interim")
-    except Exception:
-        ub = ""
-    waits = (re.search(r"if\s+dead\s*&&\s*!client\.readiness\(\)\.filter_interest\(\)\.is_readable\(\)\s*&&\s*!client\.has_buffer_pressure\(&self\.context\)\s*&&\s*!client\.has_unparsed_behind_interim\(&self\.context\)\s*\{", mx)
-             and re.search(r"let\s+kawa\s*=\s*&context\.streams\[stream_id\]\.back\s*;\s*let\s+interim\s*=\s*matches!\(\s*kawa\.detached\.status_line\s*,\s*kawa::StatusLine::Response\s*\{\s*code\s*,\s*\.\.\s*\}\s*if\s*\(100\.\.200\)\.contains\(&code\)\s*&&\s*code\s*!=\s*101\s*\)\s*;\s*interim\s*&&\s*kawa\.is_terminated\(\)\s*&&\s*!kawa\.storage\.unparsed_data\(\)\.is_empty\(\)", ub)
-             and re.search(r"let\s+leftover_after_interim\s*=\s*size\s*==\s*0\s*&&\s*matches!\(status,\s*SocketResult::WouldBlock\s*\|\s*SocketResult::Closed\)\s*&&\s*self\.position\.is_client\(\)\s*&&\s*kawa\.is_initial\(\)\s*&&\s*!kawa\.storage\.unparsed_data\(\)\.is_empty\(\)\s*;", rb)
-             and re.search(r"if\s+update_readiness_after_read\(size,\s*status,\s*&mut\s+self\.readiness\)\s*&&\s*!leftover_after_interim\s*\{", rb))
-    lines.append("Definition gen_close_waits_behind_interim : bool := %s." % ("true" if waits else "false"))
-    lines.append("Definition gen_tables : tables :=\n  mkT gen_esd gen_connect gen_redirect_fallback gen_front_timeout gen_back_timeout\n"
-                 "      (fun h2 => if h2 then gen_end_arm_h2 else gen_end_arm_h1) gen_default_answer_effs gen_force_effs gen_known_codes\n"
-                 "      gen_conn_retries gen_retry_guard_ge gen_rearm_after_write gen_rearm_delay_close gen_rearm_wait gen_rearm_backend_wait\n      gen_h1_close_after_close gen_h1_close_if_request_open gen_h1_head_gate\n      gen_park_requires_terminated gen_close_waits_behind_interim.")
+    def f_retries():
+        srv = R.strip(open(os.path.join(vlib.REPO, "lib/src/server.rs")).read())
+        m = re.search(r"\bconst\s+CONN_RETRIES\s*:\s*\w+\s*=\s*(\d+)\s*;", srv)
+        if not m:
+            raise R.Unrecognised("server.rs: CONN_RETRIES")
+        rt = R.strip(open(os.path.join(MUX, "router.rs")).read())
+        cb, _ = R.fn_body(rt, "connect")
+        cut = re.search(r"\battempts\s*\+=\s*1\s*;", cb)
+        if not cut:
+            raise R.Unrecognised("router.rs connect: `attempts += 1` not found")
+        pre = R.expand(cb[:cut.start()], {k: v for k, v in R.let_bindings(cb[:cut.start()]).items() if "attempts" in v or "CONN_RETRIES" in v})
+        g = re.search(r"if\s+\(?[\w.()]*attempts\)?\s*(>=|>|==|<=|<)\s*\(?CONN_RETRIES\)?\s*\{", pre)
+        op = g and g.group(1)
+        if not g:
+            g = re.search(r"if\s+\(?CONN_RETRIES\)?\s*(>=|>|==|<=|<)\s*\(?[\w.()]*attempts\)?\s*\{", pre)
+            op = g and {"<=": ">=", "<": ">", ">=": "<=", ">": "<", "==": "=="}[g.group(1)]
+        if not g:
+            raise R.Unrecognised("router.rs connect: no comparison of stream.attempts with CONN_RETRIES before `attempts += 1`")
+        blk = pre[g.end() - 1:]
+        blk = blk[1:R.match_brace(blk, 0)]
+        if not re.search(r"return\s+Err\(\s*BackendConnectionError::MaxConnectionRetries", blk):
+            fails.append("router.rs connect: the retry guard no longer returns MaxConnectionRetries")
+        if not re.search(r"if\s+!matches!\(\s*\w+\.state\s*,\s*StreamState::Link\s*\)\s*\{.*?return\s+Err\(", cb, re.S):
+            fails.append("router.rs: connect no longer rejects a stream that is not in Link state")
+        return ("Definition gen_conn_retries : nat := %s.\n" % m.group(1)
+                + "Definition gen_retry_guard_ge : bool := %s." % ("true" if op == ">=" else "false"))
+    fact("gen_retries", f_retries)
+
+    # h1.rs writable: when the client connection is kept after a relayed response; the head gate
+    def guard_expr(body, pos, binds):
+        gs = R.enclosing_guard(body, pos)
+        return " && ".join("(%s)" % g for g in gs) or "true"
+
+    def f_h1_keepalive():
+        wb, _ = R.fn_body(h1, "writable")
+        binds = R.let_bindings(wb)
+        cand = None
+        for m in re.finditer(r"\bif\b", wb):
+            cb = R._cond_before(wb, wb.index("{", m.end())) if "{" in wb[m.end():] else None
+            if cb and "keep_alive_frontend" in R.expand(cb[0], {k: v for k, v in binds.items() if "keep_alive" in v}) and not cb[0].startswith("let "):
+                cand = cb[0]
+                break
+        if cand is None:
+            raise R.Unrecognised("h1.rs writable: the keep-alive decision (an `if` on keep_alive_frontend) was not found")
+
+        def cl(t):
+            t0 = "".join(t.split())
+            if re.search(r"keep_alive_frontend$", t0):
+                return "KAF"
+            if re.search(r"keep_alive_backend$", t0):
+                return "KAB"
+            if re.fullmatch(r"[\w.()]*back\)*\.expects(>0|!=0|>=1)", t0) or re.fullmatch(r"0<[\w.()]*back\)*\.expects", t0):
+                return "EXP"
+            if re.fullmatch(r"[\w.()]*back\)*\.expects==0", t0):
+                return ("not", ("atom", "EXP"))
+            m_ = re.fullmatch(r"[\w.()]*\.method(!=|==)Some\((?:\w+::)*Method::Head\)", t0)
+            if m_:
+                return ("atom", "HEAD") if m_.group(1) == "==" else ("not", ("atom", "HEAD"))
+            if re.search(r"\bfront\)*\.is_terminated\(\)$", t0):
+                return "FT"
+            if re.fullmatch(r"\w+", t0) and t0 in binds:
+                return None                      # a let-bound name: read its definition
+            # the decision was found; a test it makes that the model does not know is a DIFFERENT decision
+            return "OTHER:" + t0
+        e = R.parse_bool(cand, cl, binds)
+        A = lambda n: ("atom", n)
+        by_close = ("and", ("and", ("not", A("KAB")), A("EXP")), ("not", A("HEAD")))
+        return ("Definition gen_h1_close_after_close : bool := %s.\n" % ("true" if R.bool_implies(e, ("not", by_close)) and R.bool_implies(e, A("KAF")) else "false")
+                + "Definition gen_h1_close_if_request_open : bool := %s." % ("true" if R.bool_implies(e, A("FT")) and R.bool_implies(e, A("KAF")) else "false"))
+    fact("gen_h1_keepalive", f_h1_keepalive)
+
+    def f_head_gate():
+        wb, _ = R.fn_body(h1, "writable")
+        binds = R.let_bindings(wb)
+        ps = [m.start() for m in re.finditer(r"\.prepare\(\s*&mut\s+kawa::h1::BlockConverter\s*\)", wb)]
+        if len(ps) != 1 or len(re.findall(r"\.prepare\(", wb)) != 1:
+            raise R.Unrecognised("h1.rs writable: expected exactly one kawa.prepare(&mut kawa::h1::BlockConverter)")
+
+        def cl(t):
+            t0 = "".join(t.split())
+            if t0 == "true":
+                return True
+            if re.fullmatch(r"matches!\(self\.position,Position::Server\)|self\.position\.is_server\(\)", t0):
+                return "SRV"
+            if re.fullmatch(r"self\.position\.is_client\(\)|matches!\(self\.position,Position::Client\(\.\.\)\)", t0):
+                return ("not", ("atom", "SRV"))
+            if re.search(r"\.is_main_phase\(\)$", t0):
+                return "MAIN"
+            if re.search(r"\.is_error\(\)$", t0):
+                return "ERR"
+            return None
+        e = R.parse_bool(guard_expr(wb, ps[0], binds), cl, binds)
+        A = lambda n: ("atom", n)
+        blocked = ("and", ("and", A("SRV"), ("not", A("MAIN"))), ("not", A("ERR")))
+        return "Definition gen_h1_head_gate : bool := %s." % ("true" if R.bool_implies(blocked, ("not", e)) else "false")
+    fact("gen_h1_head_gate", f_head_gate)
+
+    def interim_cl(extra):
+        def cl(t):
+            t0 = "".join(t.split())
+            while t0.startswith("(") and R.match_brace(t0, 0, "(", ")") == len(t0) - 1:
+                t0 = t0[1:-1]
+            if t0 == "true":
+                return True
+            if is_interim_expr(t0):
+                return "INTERIM"
+            if re.search(r"keep_alive_backend$", t0):
+                return "KAB"
+            if re.search(r"\.is_terminated\(\)$", t0):
+                return "TERM"
+            return extra(t0)
+        return cl
+
+    def f_park():
+        eb, _ = R.fn_body(h1, "end_stream")
+        binds = R.let_bindings(eb)
+        ps = [m.start() for m in re.finditer(r"=\s*BackendStatus::KeepAlive\s*;", eb)]
+        if len(ps) != 1:
+            raise R.Unrecognised("h1.rs end_stream: expected exactly one `= BackendStatus::KeepAlive;`")
+        e = R.parse_bool(guard_expr(eb, ps[0], binds), interim_cl(lambda t0: None), binds)
+        A = lambda n: ("atom", n)
+        want = ("and", ("and", A("KAB"), A("TERM")), ("not", A("INTERIM")))
+        return "Definition gen_park_requires_terminated : bool := %s." % ("true" if R.bool_implies(e, want) else "false")
+    fact("gen_park_requires_terminated", f_park)
+
+    def f_waits():
+        rd, _ = R.fn_body(mod, "ready")
+        binds = R.let_bindings(rd)
+        ps = [m.start() for m in re.finditer(r"\bdead_backends\.push\(", rd)]
+        if len(ps) != 1:
+            raise R.Unrecognised("mod.rs ready: the dead-backend close (`dead_backends.push(`) was not found")
+
+        def behind(name):
+            try:
+                ub, _ = R.fn_body(cn, name)
+            except R.Unrecognised:
+                return False
+            ubinds = R.let_bindings(ub)
+            tails = [t for t in re.split(r";|\{|\}|=>", ub) if "unparsed_data" in R.expand(t, ubinds) and "let " not in t]
+            for t in tails:
+                try:
+                    def cl2(x):
+                        x0 = "".join(x.split())
+                        if re.search(r"unparsed_data\(\)\)*\.is_empty\(\)$", x0):
+                            return "EMPTY"
+                        return None
+                    e2 = R.parse_bool(t.strip().rstrip(","), interim_cl(lambda x0: "EMPTY" if re.search(r"unparsed_data\(\)\)*\.is_empty\(\)$", x0) else None), ubinds)
+                except R.Unrecognised:
+                    continue
+                A = lambda n: ("atom", n)
+                if R.bool_equiv(e2, ("and", ("and", A("INTERIM"), A("TERM")), ("not", A("EMPTY")))) and re.search(r"\.back\b", R.expand(t, ubinds) + ub):
+                    return True
+            return False
+
+        def cl(t0):
+            if t0 == "dead":
+                return "DEAD"
+            if re.search(r"\.event\)*\.is_hup\(\)$", t0):
+                return "HUP"
+            if re.search(r"\.event\)*\.is_error\(\)$", t0):
+                return "ERRV"
+            if re.search(r"filter_interest\(\)\.is_readable\(\)$", t0):
+                return "READABLE"
+            m_ = re.fullmatch(r"\w+\.(\w+)\(&self\.context\)", t0)
+            if m_ and m_.group(1) == "has_buffer_pressure":
+                return "PRESSURE"
+            if m_ and behind(m_.group(1)):
+                return "BEHIND"
+            if m_:
+                return "OTHER:" + m_.group(1)      # another predicate: recognised, not the one the model assumes
+            return None
+        gs = R.enclosing_guard(rd, ps[0])
+        if not gs:
+            raise R.Unrecognised("mod.rs ready: the dead-backend close is not under an `if`")
+        e = R.parse_bool(gs[0], lambda t: cl("".join(t.split())), binds)
+        A = lambda n: ("atom", n)
+        if not R.bool_implies(e, ("or", A("DEAD"), ("or", A("HUP"), A("ERRV")))):
+            raise R.Unrecognised("mod.rs ready: the guard of the dead-backend close does not test `dead`")
+        waits = R.bool_implies(e, ("not", A("BEHIND")))
+        # the read path parses the buffered leftover when the socket has nothing more (WouldBlock) or is closed
+        rb, _ = R.fn_body(h1, "readable")
+        rbinds = R.let_bindings(rb)
+        lname = [k for k, v in rbinds.items() if "unparsed_data" in v and "is_initial" in v]
+        if len(lname) != 1:
+            raise R.Unrecognised("h1.rs readable: the leftover-after-interim test (a `let` on is_initial and unparsed_data) was not found")
+        lv = "".join(rbinds[lname[0]].split())
+        sm = re.search(r"matches!\(status,([\w:|]+)\)", lv)
+        stat = set(re.findall(r"SocketResult::(\w+)", sm.group(1))) if sm else set(re.findall(r"status==SocketResult::(\w+)", lv))
+        parses = ({"WouldBlock", "Closed"} <= stat and re.search(r"\bsize==0\b", lv) is not None and "is_client()" in lv
+                  and re.search(r"if\s+update_readiness_after_read\([^)]*\)\s*&&\s*!%s\s*\{" % lname[0], rb) is not None)
+        return "Definition gen_close_waits_behind_interim : bool := %s." % ("true" if waits and parses else "false")
+    fact("gen_close_waits_behind_interim", f_waits)
+    return facts, unread, fails
+
+
+FACT_ORDER = ["gen_esd", "gen_connect", "gen_front_timeout", "gen_back_timeout", "gen_rearm", "gen_end_arm_h1", "gen_end_arm_h2",
+              "gen_answer_effs", "gen_known_codes", "gen_retries", "gen_h1_keepalive", "gen_h1_head_gate",
+              "gen_park_requires_terminated", "gen_close_waits_behind_interim"]
+GEN_TAIL = ("Definition gen_tables : tables :=\n  mkT gen_esd gen_connect gen_redirect_fallback gen_front_timeout gen_back_timeout\n"
+            "      (fun h2 => if h2 then gen_end_arm_h2 else gen_end_arm_h1) gen_default_answer_effs gen_force_effs gen_known_codes\n"
+            "      gen_conn_retries gen_retry_guard_ge gen_rearm_after_write gen_rearm_delay_close gen_rearm_wait gen_rearm_backend_wait\n      gen_h1_close_after_close gen_h1_close_if_request_open gen_h1_head_gate\n      gen_park_requires_terminated gen_close_waits_behind_interim.")
+
+
+def snapshot():
+    """(re)write props/c02_facts.json from the current source — by hand, never at check time; commit the result"""
+    import json
+    facts, unread, fails = read_facts()
+    if unread or fails:
+        raise SystemExit("cannot snapshot: %r %r" % (unread, fails))
+    json.dump(facts, open(FACTS_FILE, "w"), indent=1, sort_keys=True)
+
+
+def translate_tables():
+    """-> (Gen.v text, failures)"""
+    import json
+    facts, unread, fails = read_facts()
+    snap = json.load(open(FACTS_FILE)) if os.path.exists(FACTS_FILE) else {}
+    lines = ["(* GENERATED by props/c02.py:translate from /repo — do not edit. *)",
+             "From Coq Require Import List NArith.", "From SV Require Import C02.Model.", "Import ListNotations.", "Open Scope N_scope.", ""]
+    for name in FACT_ORDER:
+        if name in facts:
+            lines.append(facts[name])
+        elif name in snap:
+            lines.append(snap[name])           # keeps Gen.v well-formed; the failure / `unreadable:` message is reported below
+        else:
+            fails.append("%s could not be read and props/c02_facts.json has no snapshot of it: %s" % (name, unread.get(name)))
+    for name, why in unread.items():
+        fails.append("unreadable: %s: %s; the model keeps the fact last read (props/c02_facts.json)" % (name, why))
+    lines.append(GEN_TAIL)
     return "\n".join(lines) + "\n", fails
+
+
+TRANSLATE_FALLBACK = ("the only fact that may be reported unreadable is the tree of shared.rs end_stream_decision: the in-process "
+                      "correspondence run calls the real function on its whole finite domain (640 points: stream state x parsing phase x "
+                      "keep_alive_backend x front.consumed x back.consumed x pending output x interim status line) on every run and "
+                      "compares each decision with the model's, so any change of that tree is a disagreement whatever its spelling "
+                      "(harmless/C02_esd_unreadable_* show both directions); the model then keeps the tree last read "
+                      "(props/c02_facts.json). Every other fact that cannot be read, or reads differently, is a hard failure")
 
 
 def translate():
@@ -415,6 +749,7 @@ ASSUMPTIONS = [
     "HttpAnswers templates are the listener defaults (custom templates may resolve another status; the model uses the resolved status)",
 ]
 TRUSTED = ["translator props/c02.py:translate + tools/rustmini.py regenerate coq/C02/Gen.v (end_stream_decision tree, connect-error table, both timeout trees, h1/h2 end_stream arms, answer helper effects, retry budget, the h1.rs keep-alive / head-gate / park rules, the dead-backend check that waits for bytes unparsed behind an interim) from lib/src/protocol/mux/{shared,mod,h1,h2,answers,router,connection}.rs and lib/src/server.rs",
+           "props/c02_facts.json: committed snapshot of the facts last read (written by props.c02.snapshot() by hand, never at check time); a fact whose construct is no longer recognised is generated from it and reported `unreadable:` (TRANSLATE_FALLBACK)",
            "black-box tier: sozu-e2e Worker + scripted raw-socket peers in harness/src/bin/c02bb.rs"]
 CODES = [301, 302, 308, 400, 401, 404, 408, 421, 429, 502, 503, 504]
 ODD_CODES = [0, 100, 200, 204, 304, 413, 418, 500, 501, 505, 507, 599, 65535]
